@@ -67,6 +67,56 @@ class Report:
         self.notes.append(s)
 
 
+import re as _re
+
+
+class AliasReport:
+    """Forwards the results of selected rule instances of another property's check under a rule id of this property; everything
+    else that check reports is dropped (it is reported by the property it belongs to)."""
+
+    def __init__(self, rep, mapping):
+        self._rep = rep
+        self._map = mapping            # [(rule, key regex, new rule)]
+
+    def _to(self, rule, key):
+        for r, rx, new in self._map:
+            if r == rule and _re.search(rx, str(key)):
+                return new
+        return None
+
+    def ok(self, rule, instance, nontrivial=True, **extra):
+        new = self._to(rule, instance if isinstance(instance, str) else "")
+        if new:
+            self._rep.ok(new, instance, nontrivial, **extra)
+
+    def fail(self, rule, key, message, where=None, instance=None, **detail):
+        new = self._to(rule, key)
+        if new:
+            self._rep.fail(new, key, message, where, instance, **detail)
+
+    def check(self, cond, rule, key, message_if_fail, where=None, instance=None, **detail):
+        new = self._to(rule, key)
+        if new:
+            self._rep.check(cond, new, key, message_if_fail, where, instance, **detail)
+        return cond
+
+    def floor(self, rule, what, count, minimum):
+        new = self._to(rule, "floor:" + what)
+        if new:
+            return self._rep.floor(new, what, count, minimum)
+        threshold = minimum if minimum <= 2 else max(2, (minimum * 3 + 4) // 5)
+        return count >= threshold
+
+    def exception(self, rule, name, reason):
+        pass
+
+    def note(self, s):
+        pass
+
+    def __getattr__(self, name):
+        return getattr(self._rep, name)
+
+
 def load_known():
     if not os.path.exists(KNOWN):
         return {"findings": [], "fixed": []}
